@@ -128,8 +128,22 @@ func (t *ThreadPool) ThreadCount() int {
 
 func (t *ThreadPool) AddTask(promise *Promise) {
 	vhook("addtask.try", promise)
-	t.TaskQueue <- promise
+	sendTask(t.TaskQueue, promise)
 	vhook("addtask.ok", promise)
+}
+
+// Send a task to the queue without ever blocking the caller.
+// Tasks are enqueued by worker threads as well (async calls and
+// continuations of settled promises), a worker that blocks on its own
+// full queue can deadlock the whole pool.
+func sendTask(queue chan *Promise, task *Promise) {
+	select {
+	case queue <- task:
+	default:
+		go func() {
+			queue <- task
+		}()
+	}
 }
 
 func (t *ThreadPool) Close() {
